@@ -76,6 +76,29 @@ def run(item, ctx, tier, seed):
             if ok:
                 # objects derived through swap() are Scores objects like any other
                 derived.append(("swap()", sw, combos[3::17]))
+            if item["grid"] == "irregular" and (ep, en) == (1, 2):
+                from mc.derived import derived_objects
+                from mc import refs
+
+                for how_, d_ in derived_objects(s0, seed, with_swap=False):
+                    # the curve of a bootstrap sample: rates must be the sample's rates by definition (counting on
+                    # the sample's own score arrays), whatever its internal order
+                    dp, dn = np.asarray(d_.pos, dtype=float).tolist(), np.asarray(d_.neg, dtype=float).tolist()
+                    okr, rr = guarded(ctx, "roc-derived", dict(base, derived=how_), lambda: roc(d_, nb_points=None, x_axis="fpr"))
+                    ctx.tick()
+                    ctx.state()
+                    if not okr:
+                        continue
+                    for t_, fn_, fp_ in zip(np.asarray(rr.thresholds, dtype=float).tolist(), np.asarray(rr.fnr).tolist(),
+                                            np.asarray(rr.fpr).tolist()):
+                        m_ = refs.ref_cm(dp, dn, t_, d_.score_class.value, d_.equal_class.value, int(d_.nb_easy_pos), int(d_.nb_easy_neg))
+                        want = refs.ref_rates(m_)
+                        if not (refs.same_float(float(fn_), want["fnr"]) and refs.same_float(float(fp_), want["fpr"])):
+                            ctx.fail("rates-of-derived-object-equal-counting", dict(base, derived=how_, pos=dp, neg=dn, threshold=t_),
+                                     observed=[fn_, fp_], expected=[float(want["fnr"]), float(want["fpr"])])
+                            break
+                    if not _isnondecreasing(rr.fpr):
+                        ctx.fail("x-axis-non-decreasing", dict(base, derived=how_), observed=rr.fpr, expected="non-decreasing")
             for how, s, cmb in derived:
               base = dict(base, derived=how)
               ctx.state()
